@@ -5,11 +5,15 @@ a property (from evidence/<pid>.json and replays/<pid>/<key>.json) to KNOWN_FIND
 import json, os, sys
 here = os.path.dirname(os.path.abspath(__file__))
 cmd, pid = sys.argv[1], sys.argv[2]
-ev = json.load(open(os.path.join(here, "evidence", pid + ".json")))
+root = sys.argv[3] if len(sys.argv) > 3 else here   # e.g. the snapshot directory of a `vp run`
+known = open(os.path.join(here, "KNOWN_FINDINGS.txt")).read()
+ev = json.load(open(os.path.join(root, "evidence", pid + ".json")))
 keys = ev["coverage"]["unlisted_violation_keys"]
 lines = []
 for k in keys:
-    rec = json.load(open(os.path.join(here, "replays", pid, k + ".json")))
+    if "key=%s " % k in known:
+        continue
+    rec = json.load(open(os.path.join(root, "replays", pid, k + ".json")))
     what = " ".join(str(rec["what"]).split())[:400]
     lines.append("open: property=%s key=%s %s" % (pid, k, what))
 if cmd == "add":
